@@ -31,6 +31,7 @@ class FnSpec:
         self.spec = []            # [(lineno, text)]
         self.loops = []           # [(anchor, [(lineno,text)], occurrence)]
         self.r6 = {}              # n -> [(lineno,text)]
+        self.r6_optional = set()
         self.proofs = []          # [(where, anchor, occ, [(lineno,text)])]
         self.stub = False
         self.trusted_note = None
@@ -163,9 +164,13 @@ def parse_spec(path):
             cur_fn.loopghosts[m.group(1)] = sec
             section = sec
         elif s.startswith("%r6") and cur_fn is not None:
+            # `%r6? n`: the invariant is only a hint for the n-th scan loop IF the code has one (a change that removes the
+            # scan then stands on its own obligations instead of being "anchor lost")
             n = int(s.split()[1])
             sec = []
             cur_fn.r6[n] = sec
+            if s.startswith("%r6?"):
+                cur_fn.r6_optional.add(n)
             section = sec
         elif s.startswith("%proof") and cur_fn is not None:
             m = re.match(r'%proof\s+(before|afterblock|after|start|inloop|endloop|end)(?:\s+"(.*)")?(?:\s+#(\d+))?\s*$', s)
@@ -727,6 +732,8 @@ def fn_inserts(u, m, d, it, info, used_fns, probe_fn):
                     e["text"] = e["text"].replace(tag, "#[verus_spec(" + spec_lines_to_text(sec).strip() + ")] ")
                     found = True
         if not found:
+            if n in fs.r6_optional:
+                continue
             raise Undecided("anchor lost (R6 loop %d in %s)" % (n, full))
         for lineno, t in sec:
             if t.strip():
